@@ -6,6 +6,9 @@ import Nstd.Buffer.Model
      `<v0> | <v1> | ... # <reg0> <reg1> ...`    with  `<v> = size bytes owned term`
   bytes in hex with `??` for unspecified bytes; `term` = `00`, some other byte, `??`, or `-`
   when the buffer does not own storage.  A fault prints `FAULT` and the state is reset.
+  `eq v w` prints the result of the comparison, `state v` the white-box view
+  `state <size> <capacity> <head-room|-> <own|att|dflt|stale>` of one variable (ties the
+  branch-selecting state of the model to the implementation); neither changes the state.
 -/
 open Nstd.Common
 namespace Nstd.Buffer
@@ -63,6 +66,18 @@ def stepLine (st : State) (ws : List String) : State × String :=
     | some v, some w =>
       (st, match equalBufs st v w with | some b => s!"eq {if b then 1 else 0}" | none => "FAULT")
     | _, _ => (st, "bad-op")
+  | ["state", v] =>
+    -- white-box view of one variable: size, _capacity, head-room and where the pointers point
+    match v.toNat? with
+    | some v =>
+      (st, match st.getBuf v with
+        | some b =>
+          match b.store with
+          | .own _ => s!"state {b.e - b.s} {b.cap} {b.s} own"
+          | .att _ => s!"state {b.e - b.s} {b.cap} - att"
+          | .dflt c => s!"state {b.e - b.s} {b.cap} - {if c == v then "dflt" else "stale"}"
+        | none => "bad-op")
+    | none => (st, "bad-op")
   | _ =>
     match parseOp ws with
     | none => (st, "bad-op")
